@@ -25,7 +25,9 @@ HOSTILE = ['RUN ecb_hdraw', 'run ecb_play("X")', "PROCEDURE foo", "procedure ecb
            "RUN", "A:B", "STRING<<>>", "RUN _ecb_width(1)", "(* RUN ecb_sound *)",
            # characters that some line-splitting routines (but not the tool's grammar) treat as line ends
            "PAGE\x0cTWO", "A\x0cPROCEDURE zed\x0cB", "X\x0bRUN ecb_sound", "L\x85M", "P\u2028Q\u2029R", "A\x1cB\x1dC\x1eD",
-           "T\x0c"]
+           "T\x0c",
+           # the BASIC09 statement separator inside the user's text, followed by what would be a call
+           "LOAD SONG \\ RUN ecb_play", "A \\ RUN ecb_hdraw(1)", "\\ RUN ecb_sound", "X\\RUN ecb_cls"]
 
 _LIBTEXT = {}
 
